@@ -35,10 +35,27 @@ SAInterleavings ==
   { [PayloadPlain(mk(TA)) EXCEPT !.props = << [PayloadPlain(mk(TA)).props[1] EXCEPT !.tr = Permute(@, f)] >>] : f \in Perms(4) }
   \cup { [PayloadPlain(mk(TF)) EXCEPT !.props = << [PayloadPlain(mk(TF)).props[1] EXCEPT !.tr = Permute(@, f)] >>] : f \in Perms(5) }
 
-LibKinds == PKindSet \cup {"SAperm", "EAPaka4", "all"}
+\* long transform lists (10, 13, 16, 32 and 250 transforms, several of each type) in orders other than by type: reversed, rotated,
+\* in strides coprime to their length (an interleaving that leaves no two neighbours in place).  The value a user holds keeps the wire
+\* order WITHIN each type (Norm is a stable sort by type) -- an ordering step that is not stable only shows on lists longer than a dozen
+Rev(n) == [i \in 1..n |-> n + 1 - i]
+Rot(n, k) == [i \in 1..n |-> ((i - 1 + k) % n) + 1]
+Stride(n, k) == [i \in 1..n |-> (((i - 1) * k) % n) + 1]
+T13 == TB \o << TrTV(1, 12, 14, 128), TrNone(2, 7), TrNone(3, 5) >>
+T16 == T13 \o << TrNone(4, 5), TrNone(2, 6), TrTV(1, 13, 14, 192) >>
+T250 == [i \in 1..250 |-> TB[((i - 1) \div 25) + 1]]
+LongOrders(n) == { Rev(n), Rot(n, 1), Rot(n, n \div 2), Stride(n, 3), Stride(n, 7), Stride(n, n - 1) }
+SALongOrders ==
+  LET mk(trs) == PayloadPlain([k |-> "SA", props |-> << Prop(1, 1, 8, trs) >>]) IN
+  UNION { { [mk(trs) EXCEPT !.props = << [mk(trs).props[1] EXCEPT !.tr = Permute(@, f)] >>] : f \in LongOrders(Len(trs)) } :
+          trs \in ({ TB, T13, T16, TFX } \cup (IF Thorough THEN { T250, TGX } ELSE { })) }
+  \cup { [mk(T250) EXCEPT !.props = << [mk(T250).props[1] EXCEPT !.tr = Permute(@, Stride(250, 7))] >>] }
+
+LibKinds == PKindSet \cup {"SAperm", "SAlong", "EAPaka4", "all"}
 EapFour == [k |-> "EAP", eap |-> Aka(2, 77, 1, << AV(AT_RAND, 16), AV(AT_RES, 5), AV(AT_MAC, 16), AV(AT_KDF, 2) >>)]
 LibSet(kd) ==
   CASE kd = "SAperm" -> { << x >> : x \in SAInterleavings }
+    [] kd = "SAlong" -> { << x >> : x \in SALongOrders }
     [] kd = "EAPaka4" -> { << x >> : x \in Variants(EapFour) }
     [] kd = "all" -> { [i \in 1..Len(PKinds) |-> [PayloadPlain(Rep(PKinds[i])) EXCEPT !.crit = c, !.rsv = r]] : c \in {0, 1}, r \in {0, 127} }
     [] OTHER -> { << x >> : x \in Variants(Rep(kd)) } \cup { << PayloadPlain(Rep("N")), x, PayloadPlain(Rep("V")) >> : x \in Variants(Rep(kd)) }
